@@ -74,9 +74,18 @@ def check_box(inp):
     R = np.asarray(inp['R'], float) if 'R' in inp else rotation(D, seed)
     c = np.asarray(inp['c'], float) if 'c' in inp else np.random.RandomState(2000 + seed).uniform(-3, 3, D)
     lim0 = np.asarray(inp['limits'], float) if 'limits' in inp else limits_for(D, seed)
-    box, err = _call(m.NDimBoundingBox, R, c, lim0.copy())
+    arr = lim0.copy()
+    box, err = _call(m.NDimBoundingBox, R, c, arr)
     if err:
         return _fail('box-constructor', 'NDimBoundingBox(...) raised %s' % err, inp)
+    if inp.get('reuse'):
+        # the caller's limits array is used again for a second box (RegionConstructor-style callers may keep one array): the first box must
+        # not change - its limits, volume, membership and density are checked below AFTER the second construction
+        _, err = _call(m.NDimBoundingBox, R, c + 1.0, arr)
+        if err:
+            return _fail('box-constructor', 'second NDimBoundingBox(...) over the same limits array raised %s' % err, inp)
+        if not np.array_equal(arr, lim0):
+            return _fail('limits-argument-modified', 'the limits array handed to NDimBoundingBox was modified: %r -> %r' % (lim0.tolist(), arr.tolist()), inp)
     lim = np.asarray(box.limits, float)
     w0, w = lim0[:, 1] - lim0[:, 0], lim[:, 1] - lim[:, 0]
     if lim.shape != (D, 2) or np.any(w < 0.001 - 1e-12) or np.any(lim[:, 0] > lim0[:, 0]) or np.any(lim[:, 1] < lim0[:, 1]):
@@ -140,7 +149,7 @@ def run_box(tier, seed, first=True):
     fails = []
     for D in (1, 2, 3, 4):
         for sd in range(seed, seed + seeds):
-            inp = dict(function='box', D=D, seed=sd, n2=6)
+            inp = dict(function='box', D=D, seed=sd, n2=6, reuse=(sd % 2 == 1 or sd % 3 == 0))
             cases += 1
             nontriv += 1 if (D > 1 and sd % 5 != 0) else 0
             f = check_box(inp)
